@@ -165,6 +165,9 @@ type Reply struct {
 	Raw      []byte // send these bytes verbatim instead (complete frame(s))
 	// Hold, if non-nil, delays the reply until the channel is closed.
 	Hold <-chan struct{}
+	// HoldDefault: handle the request normally, but hold its reply until the
+	// channel is closed (a server that is slow to answer).
+	HoldDefault <-chan struct{}
 	// AfterSend is called after the reply was written (or dropped).
 	AfterSend func()
 }
